@@ -608,6 +608,10 @@ impl<'a> Engine<'a> {
                         self.check_batch_conservation(n, &before, &after, txs, &child, a, &ctx);
                     }
                     check_counts(run, &after, n.model.rules().tip_906, n, Some(a), "after-batch");
+                    // ... and so is the backing of liquidity tokens (an accepted double spend of a token coin doubles the tokens)
+                    if !matches!(n.real, Real::Open(_)) || n.model.height > 0 {
+                        self.check_pools_backed(&child, &after, Some(a), n);
+                    }
                 }
                 for p in reason_props(rj.reason) {
                     run.violation(
